@@ -542,9 +542,17 @@ class Machine:
             v = Atom('uninit:%s' % (key,))
         for p in path:
             v = self.project(st, v, p)
+        if isinstance(v, Atom):
+            rf = st.extra.get('refined')
+            if rf and v.name in rf:
+                return rf[v.name]
         return v
 
     def project(self, st, v, p):
+        if isinstance(v, Atom):
+            rf = st.extra.get('refined')
+            if rf and v.name in rf:
+                v = rf[v.name]
         kind = p[0]
         if kind == 'f':
             i = p[1]
@@ -571,6 +579,8 @@ class Machine:
         raise Abort('projection %r' % (p,))
 
     def field_ty(self, ty, p):
+        if ty and ty.get('k') == 'tuple' and ty.get('elems') and p[1] < len(ty['elems']):
+            return ty['elems'][p[1]]
         if ty and ty.get('k') == 'adt':
             ad = self.prog.adts.get(ty.get('adt'))
             if ad and ad['kind'] == 'struct':
@@ -1208,6 +1218,9 @@ class Machine:
             c2 = cfg.clone()
             val = self.make_variant(c2.st, e.atom.ty, ad, vi, e.atom.name)
             self.write_path(c2.st, e.key, e.path, val)
+            rf = dict(c2.st.extra.get('refined') or {})
+            rf[e.atom.name] = val      # copies of the same opaque value elsewhere are refined consistently
+            c2.st.extra['refined'] = rf
             c2.st.extra.setdefault('choices', ())
             c2.st.extra['choices'] = c2.st.extra['choices'] + ((e.atom.name, ad['variants'][vi]['name']),)
             out.append(c2)
@@ -1603,7 +1616,14 @@ class Machine:
         st.events.append(('CALL', nm, tuple(args)))
         if not any(isinstance(a, Ref) and a.mut for a in args):
             # pure call: deterministic name so that independent runs agree
-            return Atom('%s(%s)' % (nm.split('::')[-1], ','.join(self.short_name(st, a) for a in args)), dty)
+            name = '%s(%s)' % (nm.split('::')[-1], ','.join(self.short_name(st, a) for a in args))
+            if dty and ty_range(dty.get('s', '')):
+                # integer-valued: a symbol ranging over the whole type (keeps later arithmetic exact)
+                if name not in st.ranges:
+                    st.ranges[name] = ty_range(dty['s'])
+                    st.symty[name] = dty['s']
+                return Int.sym(name)
+            return Atom(name, dty)
         return Atom(fresh('ret:' + nm.split('::')[-1]), dty)
 
     def short_name(self, st, v):
